@@ -102,12 +102,11 @@ mutual
       let lt ← lingo false l ind
       pure (.s (S "put " ++ rt.str ++ S " " ++ mode ++ S " " ++ lt.str))
     | .strOp kind _ start stop of_, _ =>
-      match stop with
-      | .none => do
+      if stop.isNone then do
         let a ← lingo false start 0
         let c ← lingo false of_ 0
         pure (.s (kind ++ S " " ++ a.str ++ S " of " ++ c.str))
-      | stop => do
+      else do
         let a ← lingo false start 0
         let b ← lingo false stop 0
         let c ← lingo false of_ 0
@@ -205,9 +204,9 @@ mutual
   def lingoStrs (gv : Bool) : List Node → Nat → R (List Str)
     | [], _ => .ok []
     | [x], ind =>
-      match gv, x with
-      | true, .sym n _ _ => .ok [n.str]          -- GlobalVariable(sym.name).generate_lingo
-      | _, x => do let t ← lingo false x ind; pure [t.str]
+      match (if gv then x.symName? else none) with
+      | some n => .ok [n.str]                    -- GlobalVariable(sym.name).generate_lingo
+      | none => do let t ← lingo false x ind; pure [t.str]
     | x :: y :: r, ind => do
       let t ← lingo false x ind
       let ts ← lingoStrs gv (y :: r) ind
